@@ -29,6 +29,71 @@ func Stack.Peek
   ensures[empty]    (s == nil || len(*s) == 0) ==> !result1 && result0 == zero(T)
   ensures[nonempty] s != nil && len(*s) > 0 ==> result1 && result0 == (*s)[len(*s) - 1]
 
+// ---------------------------------------------------------------- C16 (Queue)
+// The Queue is proved against ABSTRACT SEQUENCE contracts of the four List operations it uses.
+// Those contracts are trusted here (they restate container/list's documented sequence semantics);
+// their link to the code is the relational proof of C06 for exactly these functions (re-run under C16).
+// Ghost state per list l (indexed by the list's reference): slen[l] its length, sval[l][i] its i-th value
+// from the front; per element e: elist[e] the list it is in, epos[e] its position.
+ghostvar slen 1 int
+ghostvar sval 2 T
+ghostvar elist 1 int
+ghostvar epos 1 int
+
+func List.Len
+  trusted container/list semantics: Len is the length of the sequence
+  ensures result == slen[l] && result >= 0
+
+func List.Back
+  trusted container/list semantics: Back is the last element of the sequence, nil when empty
+  ensures slen[l] >= 0 && (result == nil) == (slen[l] == 0)
+  ensures result != nil ==> elist[result] == ref(l) && epos[result] == slen[l] - 1 && result.Value == sval[l][slen[l] - 1]
+
+func List.PushFront
+  trusted container/list semantics: PushFront inserts the value at position 0 and shifts the rest
+  ensures slen[l] == old(slen[l]) + 1 && sval[l][0] == v
+  ensures forall i :: {sval[l][i]} 1 <= i && i < slen[l] ==> sval[l][i] == old(sval[l][i - 1])
+  assigns heap, ghost(slen, l), ghost(sval, l), ghost(elist), ghost(epos)
+
+func List.Remove
+  trusted container/list semantics: Remove deletes the element from the list it belongs to, keeping the order of the rest
+  ensures result == old(e.Value)
+  ensures old(elist[e]) == ref(l) ==> slen[l] == old(slen[l]) - 1 && (forall i :: {sval[l][i]} 0 <= i && i < old(epos[e]) ==> sval[l][i] == old(sval[l][i])) && (forall i :: {sval[l][i]} old(epos[e]) <= i && i < slen[l] ==> sval[l][i] == old(sval[l][i + 1]))
+  ensures old(elist[e]) != ref(l) ==> slen[l] == old(slen[l]) && (forall i :: {sval[l][i]} 0 <= i && i < slen[l] ==> sval[l][i] == old(sval[l][i]))
+  assigns heap, ghost(slen, l), ghost(sval, l), ghost(elist), ghost(epos)
+
+// the queue's own view: position 0 is the next value to be dequeued (the back of the list)
+spec qlist(q) int = addr(q.list)
+spec qlen(q) int = slen[qlist(q)]
+spec qat(q, i int) T = sval[qlist(q)][slen[qlist(q)] - 1 - i]
+
+func Queue.Len
+  property C16
+  requires q != nil && slen[qlist(q)] >= 0
+  ensures result == qlen(q)
+
+func Queue.Enqueue
+  property C16
+  requires q != nil && slen[qlist(q)] >= 0
+  ensures[len]  qlen(q) == old(qlen(q)) + 1
+  ensures[last] qat(q, qlen(q) - 1) == value
+  ensures[rest] forall i :: 0 <= i && i < old(qlen(q)) ==> qat(q, i) == old(qat(q, i))
+  assigns heap, ghost(slen), ghost(sval), ghost(elist), ghost(epos)
+
+func Queue.Dequeue
+  property C16
+  requires q != nil && slen[qlist(q)] >= 0
+  ensures[empty]    old(qlen(q)) == 0 ==> !result1 && result0 == zero(T) && qlen(q) == 0
+  ensures[nonempty] old(qlen(q)) > 0 ==> result1 && result0 == old(qat(q, 0)) && qlen(q) == old(qlen(q)) - 1
+  ensures[rest]     old(qlen(q)) > 0 ==> (forall i :: 0 <= i && i < qlen(q) ==> qat(q, i) == old(qat(q, i + 1)))
+  assigns heap, ghost(slen), ghost(sval), ghost(elist), ghost(epos)
+
+func Queue.Peek
+  property C16
+  requires q != nil && slen[qlist(q)] >= 0
+  ensures[empty]    qlen(q) == 0 ==> !result1 && result0 == zero(T)
+  ensures[nonempty] qlen(q) > 0 ==> result1 && result0 == qat(q, 0)
+
 // ---------------------------------------------------------------- C06
 // Relational contracts: each exported function of the fork is proved equivalent to the function of the
 // installed toolchain's container/list / container/ring it was forked from (same panics, results, heap).
